@@ -830,15 +830,16 @@ def main(ctx):
     regen_ok = ctx.regen()
     ok, errs = ctx.lake_build(["GojaModel.C17.Props", "GojaModel.C17.Tie", "model_c17"])
     ctx.log("lake build done (ok=%s)" % ok)
+    ta = []
     if ok:
+        # the axiom audit (and leanchecker in the thorough tier) only reads the built .olean files: it runs
+        # concurrently with the correspondence and is joined before the verdict
         ta = [threading.Thread(target=ctx.audit, args=("GojaModel.C17.Props",), kwargs={"expect_min": PROPS_MIN}),
               threading.Thread(target=ctx.audit, args=("GojaModel.C17.Tie",), kwargs={"expect_min": 8})]
+        if not quick:
+            ta.append(threading.Thread(target=ctx.leanchecker, args=("GojaModel.C17.Props",)))
         for t in ta:
             t.start()
-        for t in ta:
-            t.join()
-        if not quick:
-            ctx.leanchecker("GojaModel.C17.Props")
     model = ctx.model_exe() if os.path.exists(ctx.model_exe()) and ok else None
     if not ok:
         # the driver may still build even if a proof broke; try it alone so that the spec oracle stays available
@@ -848,6 +849,8 @@ def main(ctx):
     th.join()
     harness = hres.get("h")
     if harness is None:
+        for t in ta:
+            t.join()
         return ctx.finish(level="proof", rule="harness did not build")
     runner = Runner(ctx, harness, model)
     ctx.log("harness built")
@@ -897,12 +900,7 @@ def main(ctx):
             os.replace(hc, hc2)
             harness = ctx.go_build()      # restore the normal binary under its usual name
             r2 = Runner(ctx, hc2, model)
-            # known findings that are a fatal `throw` under checkptr (unsafe.Add(nil, i) after a detach in map with a
-            # user species / of / from with a user constructor) would end the whole shard: leave those cases out here
-            def fatal_under_checkptr(c):
-                return any((l.startswith("M ") and l.split()[2] != "_" and ("!" in l or "@" in l)) or
-                           (l.startswith("O ") and l.split()[2] not in ES and "!" in l) for l in c)
-            sub = [c for c in cases[:ncorpus] + cases[-4000:] if not fatal_under_checkptr(c)]
+            sub = cases[:ncorpus] + cases[-4000:]
             f2 = run_shards(ctx, r2, sub)
             new2 = sorted({signature(f[0], f[1], f[2], f[6], f[4]) for f in f2 if ctx.known_signature(signature(f[0], f[1], f[2], f[6], f[4])) is None})
             ctx.obligation("corr:checkptr-run", "correspondence", not new2,
@@ -910,6 +908,9 @@ def main(ctx):
             failures += f2
             runner = Runner(ctx, harness, model)
 
+    for t in ta:
+        t.join()
+    ctx.log("audit joined")
     unprocessed = report(ctx, runner, failures) if failures else 0
     # the correspondence holds iff every disagreement is (after minimisation) one of the listed known findings
     agree = not ctx.violations and unprocessed == 0
